@@ -210,6 +210,14 @@ func (fr *Frame) appendBuiltin(c *ssa.CallCommon, ins ssa.Instruction, st *State
 		// reallocated: copy of old then new
 		fx.assert(implies(realloc, fmt.Sprintf("(forall ((%s Int)) (! (=> (and (<= 0 %s) (< %s (+ %s %s))) (= (select %s %s) (ite (< %s %s) (select (select %s %s) (+ %s %s)) (select (select %s %s) (+ %s (- %s %s)))))) :pattern ((select %s %s))))",
 			j, j, j, la, n, dst, j, j, la, cur, a.L[0], a.L[1], j, cur, b.L[0], b.L[1], j, la, dst, j)))
+		// ground instances for a statically short appended part (append(s, x) lowers to a 1-element
+		// slice): the appended elements are where Go puts them
+		var nlit int
+		if _, err := fmt.Sscan(n, &nlit); err == nil && nlit >= 1 && nlit <= 4 {
+			for m := 0; m < nlit; m++ {
+				fx.assert(eq(sel(dst, fmt.Sprintf("(ix %s (+ %s %d))", roff, la, m)), sel(sel(cur, b.L[0]), fmt.Sprintf("(ix %s %d)", b.L[1], m))))
+			}
+		}
 		st.set(k, nw)
 	}
 	return Val{T: T, L: []string{rarr, roff, rlen, rcap}}
@@ -542,6 +550,9 @@ func intrinsicName(c *ssa.CallCommon) string {
 		return ""
 	}
 	s := f.String()
+	if strings.HasSuffix(s, ".init") || len(c.Args) == 0 {
+		return ""
+	}
 	switch {
 	case strings.HasPrefix(s, "(*sync.RWMutex)."), strings.HasPrefix(s, "(*sync.Mutex)."):
 		return s
